@@ -708,6 +708,8 @@ func Run(sc Scenario) *Result {
 		st.runIdleStall(&submits)
 	} else if sc.Kind == "quietreconn" {
 		st.runQuiet(&submits)
+	} else if sc.Kind == "chatter" {
+		st.runChatter()
 	} else {
 		var main []*hBatch
 		for _, bs := range sc.Batches {
